@@ -1,0 +1,36 @@
+//go:build verif
+
+// This file is only compiled with the "verif" build tag.
+// It lets the verification harness in /verif drive the unexported formatWriter directly.
+// It adds no behaviour to the package and touches no existing declaration.
+
+package format
+
+import "io"
+
+// VerifWriterOp is one operation on a formatWriter: "s" (write string), "push" (indent), or "pop".
+type VerifWriterOp struct {
+	Op  string
+	Arg string
+}
+
+// VerifRunWriter runs the operations on a fresh formatWriter over w
+// and returns the writer's sticky error, whether it has written, and whether a line is started.
+func VerifRunWriter(w io.Writer, ops []VerifWriterOp) (err error, hasWritten bool, startedLine bool) {
+	fw := newFormatWriter(w)
+	for _, op := range ops {
+		switch op.Op {
+		case "s":
+			fw.s(op.Arg)
+		case "b":
+			fw.b([]byte(op.Arg))
+		case "push":
+			fw.push(op.Arg)
+		case "pop":
+			if len(fw.indents) > 0 {
+				fw.pop()
+			}
+		}
+	}
+	return fw.err, fw.hasWritten, fw.startedLine
+}
